@@ -744,61 +744,156 @@ func c15boolOn(v ssa.Value, known ssa.Value, kv bool) (val bool, ok bool) {
 	return false, false
 }
 
+// c15kickLookup: the ok result of the comma-ok lookup KickMap[key] in fn;
+// foreign lists comma-ok lookups of KickMap under another key.
+func c15kickLookup(fn *ssa.Function, s *c15stats, key ssa.Value) (hit ssa.Value, foreign []*ssa.Lookup) {
+	allInstrs(fn, func(in ssa.Instruction) {
+		lk, ok := in.(*ssa.Lookup)
+		if !ok || !lk.CommaOk || !c15isLoadOf(lk.X, s.kick) {
+			return
+		}
+		if resolve(lk.Index) == key {
+			if e := extractOf(lk, 1); e != nil {
+				hit = e
+			}
+		} else {
+			foreign = append(foreign, lk)
+		}
+	})
+	return
+}
+
 func c15R3(c *Check, s *c15stats, la *LockAnalysis) {
 	p := c.P
 	fn := s.logTraf
 	c.Saw(fnName(fn))
 	const r3 = "C15.R3 LogTraffic: kick hit => delete that id and return false; counters are updated only behind the miss edge, tx->Tx and rx->Rx on the entry of that id, then true; nothing else removes kick entries"
 	idP, txP, rxP := ssa.Value(fn.Params[1]), ssa.Value(fn.Params[2]), ssa.Value(fn.Params[3])
-	// the kick test: comma-ok lookup of KickMap[id]
-	var hit ssa.Value
-	nLook := 0
-	allInstrs(fn, func(in ssa.Instruction) {
-		lk, ok := in.(*ssa.Lookup)
-		if !ok || !lk.CommaOk || !c15isLoadOf(lk.X, s.kick) {
-			return
-		}
-		nLook++
-		if resolve(lk.Index) == idP {
-			if e := extractOf(lk, 1); e != nil {
-				hit = e
+	// the kick test: comma-ok lookup of KickMap[id], in LogTraffic itself or in
+	// a helper (test + consume) that LogTraffic calls with its id
+	hit, foreign := c15kickLookup(fn, s, idP)
+	for _, lk := range foreign {
+		c.Bad("C15.R3:kick-lookup-key", r3, p.InstrPos(lk), "the kick list is consulted with a key other than LogTraffic's id parameter")
+	}
+	hitPol := true // value of `hit` that means "a kick is pending"
+	var c15helper *ssa.Function
+	var c15helperKey, c15helperHit ssa.Value
+	if hit == nil {
+		allInstrs(fn, func(in ssa.Instruction) {
+			call, ok := in.(*ssa.Call)
+			if !ok || c15helper != nil {
+				return
 			}
-		} else {
-			c.Bad("C15.R3:kick-lookup-key", r3, p.InstrPos(lk), "the kick list is consulted with a key other than LogTraffic's id parameter")
-		}
-	})
+			g := staticCallee(call)
+			if !c15isRepoBody(p, g) || g == fn {
+				return
+			}
+			res := g.Signature.Results()
+			if res.Len() != 1 || !types.Identical(res.At(0).Type().Underlying(), types.Typ[types.Bool]) {
+				return
+			}
+			for i, a := range call.Call.Args {
+				if resolve(a) != idP || i >= len(g.Params) {
+					continue
+				}
+				gh, gforeign := c15kickLookup(g, s, g.Params[i])
+				if gh == nil {
+					continue
+				}
+				for _, lk := range gforeign {
+					c.Bad("C15.R3:kick-lookup-key", r3, p.InstrPos(lk), "the kick list is consulted with a key other than LogTraffic's id parameter")
+				}
+				c15helper, c15helperKey, c15helperHit = g, g.Params[i], gh
+				hit = call
+				return
+			}
+		})
+	}
 	if hit == nil {
 		c.Bad("C15.R3:kick-lookup", r3, p.Pos(fn.Pos()), "LogTraffic no longer tests KickMap[id] (a kicked user is never refused)")
 		return
 	}
-	hitEdge := func(cond ssa.Value, pol bool) bool {
-		v, q := c15norm(cond, pol)
-		return q && c15localVal(v) == hit
+	mkEdges := func(h ssa.Value, hp bool) (EdgePred, EdgePred) {
+		return func(cond ssa.Value, pol bool) bool {
+				v, q := c15norm(cond, pol)
+				return q == hp && c15localVal(v) == h
+			}, func(cond ssa.Value, pol bool) bool {
+				v, q := c15norm(cond, pol)
+				return q != hp && c15localVal(v) == h
+			}
 	}
-	missEdge := func(cond ssa.Value, pol bool) bool {
-		v, q := c15norm(cond, pol)
-		return !q && c15localVal(v) == hit
+	mkDelete := func(key ssa.Value) func(ssa.Instruction) bool {
+		return func(in ssa.Instruction) bool {
+			call, ok := in.(*ssa.Call)
+			return ok && isBuiltinCall(call, "delete") && len(call.Call.Args) == 2 && c15isLoadOf(call.Call.Args[0], s.kick) && resolve(call.Call.Args[1]) == key
+		}
 	}
+	// the function holding the lookup and the delete: LogTraffic or the helper
+	kfn, kKey, kHit := fn, idP, hit
+	if c15helper != nil {
+		kfn, kKey, kHit = c15helper, c15helperKey, c15helperHit
+		c.Saw(fnName(kfn))
+	}
+	kHitEdge, kMissEdge := mkEdges(kHit, true)
+	isKickDelete := mkDelete(kKey)
+	kHitBlocks := c15edgeTargets(kfn, kHitEdge)
+	kMissBlocks := c15edgeTargets(kfn, kMissEdge)
+	if !c.Req(len(kHitBlocks) > 0 && len(kMissBlocks) > 0, "C15.R3:kick-branch", r3, p.Pos(kfn.Pos()), "the result of the KickMap lookup does not decide a branch") {
+		return
+	}
+	for _, hb := range kHitBlocks {
+		leaks := c15returnsIn(c15walk(hb, isKickDelete, nil))
+		c.Req(len(leaks) == 0, "C15.R3:hit-deletes-id", r3, p.InstrPos(hb.Instrs[0]), "a path on the kick-hit edge returns without delete(KickMap, id): the user is refused on every later report (or the entry is never consumed)")
+	}
+	if c15helper != nil {
+		// the helper's verdict: one constant on the hit edge, its negation on the miss edge
+		verdict := func(blocks []*ssa.BasicBlock, kv bool) (vals map[bool]bool, ok bool) {
+			vals, ok = map[bool]bool{}, true
+			for _, b := range blocks {
+				for _, r := range c15returnsIn(c15walk(b, nil, nil)) {
+					rs := retResults(r)
+					if len(rs) != 1 {
+						ok = false
+						continue
+					}
+					v, k := c15boolOn(rs[0], kHit, kv)
+					if !k {
+						ok = false
+						continue
+					}
+					vals[v] = true
+				}
+			}
+			return
+		}
+		hv, ok1 := verdict(kHitBlocks, true)
+		mv, ok2 := verdict(kMissBlocks, false)
+		switch {
+		case !ok1 || !ok2:
+			c.Undecided("C15.R3:kick-helper-verdict", r3, p.Pos(kfn.Pos()), "cannot evaluate what "+fnName(kfn)+" returns on the kick-hit / kick-miss edge")
+			return
+		case len(hv) == 1 && len(mv) == 1 && hv[true] != mv[true]:
+			hitPol = hv[true]
+		default:
+			c.Bad("C15.R3:kick-helper-verdict", r3, p.Pos(kfn.Pos()), "the result of "+fnName(kfn)+" does not tell a pending kick from none (a kicked user is never refused, or everyone is)")
+			return
+		}
+	}
+	hitEdge, missEdge := mkEdges(hit, hitPol)
 	hitBlocks := c15edgeTargets(fn, hitEdge)
 	missBlocks := c15edgeTargets(fn, missEdge)
 	if !c.Req(len(hitBlocks) > 0 && len(missBlocks) > 0, "C15.R3:kick-branch", r3, p.Pos(fn.Pos()), "the result of the KickMap lookup does not decide a branch") {
 		return
 	}
-	isKickDelete := func(in ssa.Instruction) bool {
-		call, ok := in.(*ssa.Call)
-		return ok && isBuiltinCall(call, "delete") && len(call.Call.Args) == 2 && c15isLoadOf(call.Call.Args[0], s.kick) && resolve(call.Call.Args[1]) == idP
-	}
-	// hit path: delete on every path, returns false
+	// hit path: returns false
 	for _, hb := range hitBlocks {
-		leaks := c15returnsIn(c15walk(hb, isKickDelete, nil))
-		c.Req(len(leaks) == 0, "C15.R3:hit-deletes-id", r3, p.InstrPos(hb.Instrs[0]), "a path on the kick-hit edge returns without delete(KickMap, id): the user is refused on every later report (or the entry is never consumed)")
 		bad := ""
 		for _, r := range c15returnsIn(c15walk(hb, nil, nil)) {
 			rs := retResults(r)
 			if len(rs) != 1 {
 				continue
 			}
-			v, ok := c15boolOn(rs[0], hit, true)
+			v, ok := c15boolOn(rs[0], hit, hitPol)
 			if !ok {
 				c.Undecided("C15.R3:hit-returns-false", r3, p.InstrPos(r), "cannot evaluate the value returned on the kick-hit edge")
 				bad = "-"
@@ -853,7 +948,7 @@ func c15R3(c *Check, s *c15stats, la *LockAnalysis) {
 			if len(rs) != 1 {
 				continue
 			}
-			if v, ok := c15boolOn(rs[0], hit, false); ok && !v {
+			if v, ok := c15boolOn(rs[0], hit, !hitPol); ok && !v {
 				bad = p.InstrPos(r)
 			} else if !ok {
 				bad = p.InstrPos(r) + " (not a constant)"
@@ -877,12 +972,17 @@ func c15R3(c *Check, s *c15stats, la *LockAnalysis) {
 		for _, op := range mapOpsOn(fr.Val) {
 			switch op.Kind {
 			case "update":
-				if fr.Fn != fn {
+				if fr.Fn != fn && fr.Fn != kfn {
 					nIns++
 				}
 			case "delete":
 				k := "C15.R3:kick-removal:" + fnName(fr.Fn)
-				ok := fr.Fn == fn && isKickDelete(op.Instr) && guardedBy(op.Instr, hitEdge)
+				ok := fr.Fn == kfn && isKickDelete(op.Instr) && guardedBy(op.Instr, kHitEdge)
+				if ok && c15helper != nil {
+					// the consuming helper serves LogTraffic only
+					cs := la.callers[kfn]
+					ok = !la.escaped[kfn] && len(cs) == 1 && ssa.Value(hit) == cs[0].Value()
+				}
 				c.Req(ok, k, r3, p.InstrPos(op.Instr), "a kick entry is removed elsewhere than on LogTraffic's hit edge for that id (the kick is lost or another user's kick is consumed)")
 			}
 		}
@@ -1161,7 +1261,7 @@ func (x *c15srv) tlNilEdge(cond ssa.Value, pol bool) bool {
 // the invoke itself, or a plain call of a repo function that does (depth<=3).
 // must[i] tells whether executing the instruction always performs it (modulo
 // the `logger == nil` edge).
-func (x *c15srv) performers(fn *ssa.Function, isSite func(*ssa.Call) bool, depth int) (ins []ssa.Instruction, must map[ssa.Instruction]bool) {
+func (x *c15srv) performers(fn *ssa.Function, isSite func(*ssa.Call) bool, depth int, skip EdgePred) (ins []ssa.Instruction, must map[ssa.Instruction]bool) {
 	must = map[ssa.Instruction]bool{}
 	if depth > 3 {
 		return
@@ -1180,13 +1280,17 @@ func (x *c15srv) performers(fn *ssa.Function, isSite func(*ssa.Call) bool, depth
 		if !c15isRepoBody(x.p, g) || g == fn {
 			return
 		}
-		gi, gm := x.performers(g, isSite, depth+1)
+		gi, gm := x.performers(g, isSite, depth+1, skip)
 		if len(gi) == 0 {
 			return
 		}
 		ins = append(ins, call)
 		stop := func(y ssa.Instruction) bool { return gm[y] }
-		must[call] = len(c15returnsIn(c15walk(g.Blocks[0], stop, x.tlNilEdge))) == 0
+		edgeSkip := EdgePred(x.tlNilEdge)
+		if skip != nil {
+			edgeSkip = func(cond ssa.Value, pol bool) bool { return x.tlNilEdge(cond, pol) || skip(cond, pol) }
+		}
+		must[call] = len(c15returnsIn(c15walk(g.Blocks[0], stop, edgeSkip))) == 0
 	})
 	return
 }
@@ -1360,7 +1464,7 @@ func c15R4server(c *Check, la *LockAnalysis) {
 		return false
 	}
 	{
-		perf, must := x.performers(a.serveHTTP, isOnline, 0)
+		perf, must := x.performers(a.serveHTTP, isOnline, 0, nil)
 		stop := func(in ssa.Instruction) bool { return must[in] }
 		for _, b := range c15edgeTargets(a.serveHTTP, a.authOKEdge) {
 			leaks := c15returnsIn(c15walk(b, stop, x.tlNilEdge))
@@ -1436,15 +1540,17 @@ func c15R4server(c *Check, la *LockAnalysis) {
 	}
 	{
 		fn := a.handleClient
-		perf, must := x.performers(fn, isOffline, 0)
-		stop := func(in ssa.Instruction) bool { return must[in] }
-		skip := func(cond ssa.Value, pol bool) bool {
-			if x.tlNilEdge(cond, pol) {
-				return true
-			}
+		// the not-authenticated edge of the handler's flag (also inside a helper
+		// that receives the handler: the early return of a disconnect helper)
+		flagOff := func(cond ssa.Value, pol bool) bool {
 			v, q := c15norm(cond, pol)
 			_, ok := isFlag(v)
 			return ok && !q
+		}
+		perf, must := x.performers(fn, isOffline, 0, flagOff)
+		stop := func(in ssa.Instruction) bool { return must[in] }
+		skip := func(cond ssa.Value, pol bool) bool {
+			return x.tlNilEdge(cond, pol) || flagOff(cond, pol)
 		}
 		leak := ""
 		for _, in := range reachFrom(fn, x.serveCall, stop, skip) {
@@ -1538,7 +1644,12 @@ func c15forwardsErr(fn *ssa.Function, call *ssa.Call) bool {
 		return false
 	}
 	n := 0
-	for _, r := range c15returnsIn(reachFrom(fn, call, nil, nil)) {
+	// paths on which the call's error is known to be nil carry no verdict
+	isNilEdge := func(cond ssa.Value, pol bool) bool {
+		v, isNil, ok := nilTest(cond, pol)
+		return ok && isNil && c15isValueOf(v, call, 0)
+	}
+	for _, r := range c15returnsIn(reachFrom(fn, call, nil, isNilEdge)) {
 		if fn.Recover == r.Block() {
 			continue
 		}
@@ -1631,6 +1742,7 @@ func c15R5(c *Check, la *LockAnalysis) {
 	// type func(...) bool
 	sentinels := map[*ssa.Global]bool{}
 	relayFns := map[*ssa.Function]bool{}
+	loopFns := map[*ssa.Function]bool{} // return the sentinel when their callback refuses
 	nLoop := 0
 	for _, g := range srvFns {
 		for _, prm := range g.Params {
@@ -1674,13 +1786,7 @@ func c15R5(c *Check, la *LockAnalysis) {
 				}
 			}
 			c.Req(bad == "", "C15.R5:callback:"+fnName(g), r5, p.Pos(g.Pos()), "the copy loop does not return the package's disconnect sentinel on the refused edge of its log callback (veto swallowed): return at "+bad)
-			for _, cs := range la.callers[g] {
-				root := cs.Parent()
-				for root.Parent() != nil {
-					root = root.Parent()
-				}
-				relayFns[root] = true
-			}
+			loopFns[g] = true
 		}
 	}
 	c.Floor("C15.R5:callback-consumers", nLoop, 1)
@@ -1691,8 +1797,23 @@ func c15R5(c *Check, la *LockAnalysis) {
 	nCallers := 0
 	var relayList []*ssa.Function
 	relayDepth := map[*ssa.Function]int{}
-	for rf := range relayFns {
-		relayList = append(relayList, rf)
+	// level 0: the copy loops themselves.  Their result reaches the relay's
+	// caller either as the result of a function that hands it on unchanged
+	// (a loop that had its per-chunk step extracted, a dispatch helper), or
+	// through the goroutine closures of the two-way relay (channel): then the
+	// function enclosing the closure is the relay.
+	viaLoop := map[*ssa.Function]bool{}
+	for g := range loopFns {
+		relayList = append(relayList, g)
+		viaLoop[g] = true
+	}
+	addRelay := func(fn, from *ssa.Function, loop bool) {
+		if !relayFns[fn] && !loopFns[fn] {
+			relayFns[fn] = true
+			relayDepth[fn] = relayDepth[from] + 1
+			viaLoop[fn] = loop
+			relayList = append(relayList, fn)
+		}
 	}
 	for wi := 0; wi < len(relayList); wi++ {
 		rf := relayList[wi]
@@ -1702,12 +1823,21 @@ func c15R5(c *Check, la *LockAnalysis) {
 				continue
 			}
 			fn := call.Parent()
-			if c15forwardsErr(fn, call) && relayDepth[rf] < 3 && !la.escaped[fn] && len(la.callers[fn]) > 0 {
-				if !relayFns[fn] {
-					relayFns[fn] = true
-					relayDepth[fn] = relayDepth[rf] + 1
-					relayList = append(relayList, fn)
+			if viaLoop[rf] && fn.Parent() != nil {
+				root := fn
+				for root.Parent() != nil {
+					root = root.Parent()
 				}
+				addRelay(root, rf, false)
+				continue
+			}
+			if viaLoop[rf] && loopFns[rf] && fn.Parent() == nil && !c15forwardsErr(fn, call) {
+				// a direct (non-closure) caller of the loop is the relay
+				addRelay(fn, rf, false)
+				continue
+			}
+			if c15forwardsErr(fn, call) && relayDepth[rf] < 5 && !la.escaped[fn] && len(la.callers[fn]) > 0 {
+				addRelay(fn, rf, viaLoop[rf])
 				c.Saw(fnName(fn))
 				c.OK("C15.R5:relay-forwarder:"+fnName(fn)+"→"+fnName(rf), r5, p.InstrPos(call))
 				continue
